@@ -30,6 +30,11 @@ Theorem C01_tables_named :
 Proof. exact tables_agree_named. Qed.
 Print Assumptions C01_tables_named.
 
+Theorem C01_stat_arms :
+  gen_enc_stat_arms = expected_stat_arms /\ gen_dec_stat_arms = expected_stat_arms /\ gen_size_stat_arms = expected_stat_arms.
+Proof. exact stat_arms_agree. Qed.
+Print Assumptions C01_stat_arms.
+
 Theorem C01_expected_is_manual :
   map (fun r => (fst r, map snd (snd (snd r)))) expected_msg_table = spec_kinds_table /\
   map snd expected_dir_fields = spec_dir_kinds /\ map snd expected_qid_fields = spec_qid_kinds.
